@@ -1088,6 +1088,9 @@ func random(c Cfg, n, maxlen int, seed int64, out, rankOut string) {
 		ln := 1 + rng.Intn(maxlen)
 		// the first third of the histories is insert-only (C07 clause 1 at larger M)
 		insertOnly := hid%3 == 0 || (c.Index.Derived && hid%3 == 1)
+		// every tenth history: some updates carry a metadata value too long for the snapshot format (accepted by the
+		// index; such histories take no snapshot - that a snapshot of such a state is refused is C08's open finding)
+		oversize := hid%10 == 7 && len(c.Keys) > 0
 		for i := 1; i <= ln; i++ {
 			var o hx.Op
 			x := rng.Intn(100)
@@ -1118,6 +1121,27 @@ func random(c Cfg, n, maxlen int, seed int64, out, rankOut string) {
 						bi.Lvl = 0
 					}
 					o.Items = append(o.Items, bi)
+				}
+			}
+			if oversize {
+				if o.Op == "saveload" || o.Op == "loadempty" {
+					o = hx.Op{Op: "remove", Id: it.Id}
+				}
+				if (o.Op == "update" || o.Op == "insert") && rng.Intn(3) == 0 {
+					m := hx.Meta{}
+					for k, v := range o.Meta {
+						m[k] = v
+					}
+					m[c.Keys[0]] = hx.LongVal
+					o.Meta = m
+				}
+				if o.Op == "bupdate" && len(o.Items) > 0 && rng.Intn(3) == 0 {
+					m := hx.Meta{}
+					for k, v := range o.Items[0].Meta {
+						m[k] = v
+					}
+					m[c.Keys[0]] = hx.LongVal
+					o.Items[0].Meta = m
 				}
 			}
 			full := c.Full == "all" || i == ln || rng.Intn(4) == 0
